@@ -17,9 +17,16 @@ ENG = {
 }
 
 
+# engines that only make terminating library calls: a case that does not finish is a violation (key "hang")
+HANG_IS_VIOLATION = {"hhfuzz", "poolfuzz", "rngdet", "statcheck", "evfuzz", "corofuzz"}
+
+
 def J(name, engine, flavour, profile, quick, thorough, **kw):
     d = dict(name=name, engine=engine, flavour=flavour, profile=profile, quick=quick, thorough=thorough)
     d.update(kw)
+    if engine in HANG_IS_VIOLATION:
+        d["extra"] = list(d.get("extra", [])) + ["--hang-violation"]
+        d.setdefault("timeout", 30)
     return d
 
 
